@@ -84,21 +84,21 @@ theorem inv_reachable (m0 : M) (h0 : m0 ∈ inits T) (h : List Base) (hh : Hist 
 /-- **CONNECTED only with a live facade on a fully connected spa** (and that facade was announced and not torn down);
 a facade never outlives its spa; the monitor is never left between "built" and "announced" -/
 theorem inv_meaning (m : M) (hi : Inv m) :
-    (m.state = .CONNECTED → m.facade = true ∧ m.spa = true ∧ m.spaConn = true ∧ m.fmon = .ready) ∧
-    (m.facade = true → m.spa = true ∧ m.spaConn = true ∧ (m.fmon = .ready ∨ m.fmon = .tornDown)) ∧
+    (m.state = .CONNECTED → m.facade = true ∧ m.spa = true ∧ m.spaConn = true ∧ m.proto = true ∧ m.fmon = .ready) ∧
+    (m.facade = true → m.spa = true ∧ m.spaConn = true ∧ m.proto = true ∧ (m.fmon = .ready ∨ m.fmon = .tornDown)) ∧
     (m.spaConn = true → m.spa = true) ∧ m.fmon ≠ .built ∧ m.sensor = m.status.isSome := by
   have h := good_of_mem m hi
   simp only [good, Bool.and_eq_true, Bool.or_eq_true, bne_iff_ne, beq_iff_eq, Bool.not_eq_true', ne_eq] at h
-  obtain ⟨⟨⟨⟨⟨h1, h2⟩, h3⟩, h4⟩, h5⟩, _⟩ := h
+  obtain ⟨⟨⟨⟨⟨⟨h1, h2⟩, h3⟩, _⟩, h4⟩, h5⟩, _⟩ := h
   refine ⟨?_, ?_, ?_, h4, h5⟩
   · intro hc
     rcases h1 with h1 | h1
     · exact absurd hc h1
-    · exact ⟨h1.1.1.1, h1.1.1.2, h1.1.2, h1.2⟩
+    · exact ⟨h1.1.1.1.1, h1.1.1.1.2, h1.1.1.2, h1.1.2, h1.2⟩
   · intro hf
     rcases h2 with h2 | h2
     · rw [hf] at h2; cases h2
-    · exact ⟨h2.1.1, h2.1.2, h2.2⟩
+    · exact ⟨h2.1.1.1, h2.1.1.2, h2.1.2, h2.2⟩
   · intro hc
     rcases h3 with h3 | h3
     · rw [hc] at h3; cases h3
@@ -106,9 +106,9 @@ theorem inv_meaning (m : M) (hi : Inv m) :
 
 theorem connected_implies_live (m0 : M) (h0 : m0 ∈ inits T) (h : List Base) (hh : Hist m0 h)
     (hc : (runB T m0 h).state = .CONNECTED) :
-    (runB T m0 h).facade = true ∧ (runB T m0 h).spa = true ∧ (runB T m0 h).spaConn = true :=
+    (runB T m0 h).facade = true ∧ (runB T m0 h).spa = true ∧ (runB T m0 h).spaConn = true ∧ (runB T m0 h).proto = true :=
   let r := (inv_meaning _ (inv_reachable m0 h0 h hh)).1 hc
-  ⟨r.1, r.2.1, r.2.2.1⟩
+  ⟨r.1, r.2.1, r.2.2.1, r.2.2.2.1⟩
 
 /-! ## per-call clauses (projections of `call_ok`) -/
 
@@ -257,7 +257,7 @@ theorem exec_out_is_finish (env : Env) (m m' : M) (op : Op) (d : Delivered) (pus
   | fin ps => simp only [exec] at h; cases h
   | reraise => simp only [exec] at h; cases h
   | raiseNow => simp only [exec] at h; cases h
-  | cstep c => cases c <;> simp only [exec, execCStep] at h <;> cases h
+  | cstep c => cases c <;> simp only [exec, execCStep] at h <;> (repeat' split at h) <;> cases h
   | yield => simp only [exec] at h; cases h
   | setInfo i n => simp only [exec] at h; cases h
   | afterLocate => simp only [exec, execAfterLocate] at h; repeat' split at h
@@ -364,7 +364,7 @@ theorem conc_delivery_mirrors (s : MState) (i : Input) : ∀ d ∈ (step T s i).
 
 /-- the alphabet and the closed set are not trivial: 205 states, 6 of them CONNECTED, every connect path is a call -/
 example : reachList.length ≥ 100 ∧ (reachList.filter fun m => m.state == .CONNECTED).length ≥ 1 ∧
-    (allBase T).length ≥ 60 ∧ (allPaths T).length = 14 := by decide +kernel
+    (allBase T).length ≥ 60 ∧ (allPaths T).length = 19 := by decide +kernel
 
 /-- a history that reaches CONNECTED, loses the pings, gets them back (which resets) and connects again -/
 def tour : List Base :=
